@@ -288,7 +288,9 @@ def main():
             # the hooks/harness API; the correspondence no longer checks.
             broken_obligations.append({"theorem": "harness build against /repo working tree", "detail": out[-2000:]})
 
-    obligations = len(names) if names else len(theorem_names(prop))
+    # obligations: every theorem of Props/<id>.v (kernel-accepted, closed) + the static scan of the development
+    obligations = (len(names) if names else len(theorem_names(prop))) + 1
+    scan_ok = not any(b.get("theorem", "").startswith("static scan") for b in broken_obligations)
     discharged = 0
     axioms_used = set()
     for n in names:
@@ -402,7 +404,7 @@ def main():
     ev = {
         "property_id": prop, "tier": tier, "seed": seed, "level": "proof",
         "coverage": {
-            "obligations": obligations, "discharged": discharged if proof_ok else 0,
+            "obligations": obligations, "discharged": (discharged if proof_ok else 0) + (1 if scan_ok else 0),
             "checker_cmd": "make -C /verif/coq Props/%s.vo (coqc 8.16.1, full .vo) + coqc run/%s/assume.v (Print Assumptions)" % (prop, prop),
             "trusted_base": tb,
             "theorems": names,
@@ -435,7 +437,7 @@ def main():
         print("VIOLATION property=%s replay=%s%s" % (prop, rp, " no-failing-input-found" if nf else ""))
     if not violations:
         print("OK property=%s tier=%s obligations=%d/%d cases=%d nontrivial=%s wall=%.1fs" % (
-            prop, tier, discharged, obligations, ncases, cases_meta.get("distinct_nontrivial"), wall))
+            prop, tier, discharged + (1 if scan_ok else 0), obligations, ncases, cases_meta.get("distinct_nontrivial"), wall))
     return 1 if violations else 0
 
 
